@@ -12,6 +12,7 @@ import (
 	"github.com/kstenerud/go-concise-encoding/ce"
 	"github.com/kstenerud/go-concise-encoding/configuration"
 	"github.com/kstenerud/go-concise-encoding/iterator"
+	"github.com/kstenerud/go-concise-encoding/rules"
 	"pgregory.net/rapid"
 
 	"verif/internal/ev"
@@ -109,8 +110,15 @@ func genC17(t *rapid.T, ctx *Ctx) interface{} {
 	avoid(ctx, &evOpts, "S59-marked-node-value", "S35-key-reference", "S34-reference-in-node")
 	nItems := rapid.IntRange(1, 3).Draw(t, "nitems")
 	for i := 0; i < nItems; i++ {
-		if rapid.IntRange(0, 4).Draw(t, "evitem") == 0 {
-			c.Items = append(c.Items, C17Item{Events: gen.Document(t, evOpts)})
+		if rapid.IntRange(0, 2).Draw(t, "evitem") == 0 {
+			evOpts.MarkerHeavy = rapid.Bool().Draw(t, "evmarkers") // more markers, forward references among them
+			doc := gen.Document(t, evOpts)
+			if rapid.Bool().Draw(t, "evsplit") {
+				// arrays delivered again with data events that end inside an element / a character: what an encoder
+				// carries over from one data event to the next belongs to that encoder alone
+				doc = gen.Rechunk(t, doc, true, true)
+			}
+			c.Items = append(c.Items, C17Item{Events: doc})
 			continue
 		}
 		var it C17Item
@@ -129,7 +137,7 @@ func genC17(t *rapid.T, ctx *Ctx) interface{} {
 	c.Records = rapid.Bool().Draw(t, "records")
 	workers := rapid.IntRange(2, 16).Draw(t, "workers")
 	valKinds := []string{"m-cbe", "m-cte", "ms-cbe", "ms-cte", "ms-cbe", "ms-cte", "mo-cbe", "mo-cte", "u-cbe", "u-cte", "us-cbe", "us-cte", "us-cbe", "us-cte"}
-	evKinds := []string{"ev-cbe", "ev-cte"}
+	evKinds := []string{"ev-cbe", "ev-cte", "evo-cbe", "evo-cte", "evo-cbe", "evo-cte"}
 	// most workers hammer the same item (same new type) so that first uses collide
 	hot := rapid.IntRange(0, nItems-1).Draw(t, "hot")
 	for w := 0; w < workers; w++ {
@@ -174,8 +182,22 @@ func marshalWith(m func(v interface{}) ([]byte, error), v interface{}, format st
 	return r
 }
 
+// c17Worker: what one goroutine keeps between its operations - marshaler objects ("mo" kinds) and a decoder
+// with its validator ("evo" kinds: the validator is Reset and used again, as an Unmarshaler does with its own).
+type c17Worker struct {
+	mo    map[string]ce.Marshaler
+	dec   map[string]ce.Decoder
+	rules map[string]*rules.RulesEventReceiver
+	rec   map[string]*ev.Recorder
+}
+
+func newC17Worker() *c17Worker {
+	return &c17Worker{mo: map[string]ce.Marshaler{}, dec: map[string]ce.Decoder{}, rules: map[string]*rules.RulesEventReceiver{}, rec: map[string]*ev.Recorder{}}
+}
+
 // c17Run executes one operation with private instances (and, for the *s- kinds, the shared sessions of env).
-func c17Run(env *c17Env, c *C17Case, op C17Op, mo map[string]ce.Marshaler) (res c17Result) {
+func c17Run(env *c17Env, c *C17Case, op C17Op, ws *c17Worker) (res c17Result) {
+	mo := ws.mo
 	defer func() {
 		if p := recover(); p != nil {
 			res = c17Result{errNil: false, errTxt: fmt.Sprintf("PANIC: %v", p)}
@@ -252,6 +274,34 @@ func c17Run(env *c17Env, c *C17Case, op C17Op, mo map[string]ce.Marshaler) (res 
 		}
 		// reduce the value to a document (CTE) for comparison
 		return marshalWith(func(v interface{}) ([]byte, error) { return ce.MarshalToCTEDocument(v, cfg) }, out, "cte")
+	case "evo": // like "ev", but the decoding side is a decoder and a validator this goroutine keeps and uses again
+		var d []byte
+		var idx int
+		var err error
+		if format == "cbe" {
+			d, idx, err = encodeCBE(it.Events, cfg)
+		} else {
+			d, idx, err = encodeCTE(it.Events, cfg)
+		}
+		if idx >= 0 {
+			return c17Result{errNil: false, errTxt: fmt.Sprint(err)}
+		}
+		if ws.dec[format] == nil {
+			if format == "cbe" {
+				ws.dec[format] = ce.NewCBEDecoder(cfg)
+			} else {
+				ws.dec[format] = ce.NewCTEDecoder(cfg)
+			}
+			ws.rec[format] = ev.NewRecorder()
+			ws.rules[format] = ce.NewRules(ws.rec[format], cfg)
+		} else {
+			ws.rules[format].Reset()
+			ws.rec[format].Events = nil
+		}
+		if err = ws.dec[format].DecodeDocument(d, ws.rules[format]); err != nil {
+			return c17Result{errNil: false, errTxt: err.Error()}
+		}
+		return c17Result{errNil: true, doc: []byte(ev.ListString(ws.rec[format].Events)), format: "events"}
 	case "ev": // validate + encode, then decode + validate: separate encoder / decoder / validators
 		var d []byte
 		var idx int
@@ -359,10 +409,10 @@ func init() {
 				wg.Add(1)
 				go func(w int) {
 					defer wg.Done()
-					mo := map[string]ce.Marshaler{}
+					ws := newC17Worker()
 					<-start
 					for _, op := range c.Workers[w] {
-						results[w] = append(results[w], c17Run(env, c, op, mo))
+						results[w] = append(results[w], c17Run(env, c, op, ws))
 					}
 				}(w)
 			}
@@ -372,11 +422,11 @@ func init() {
 			}
 			// ---- the same operations alone, on fresh private instances and fresh sessions
 			for w := range c.Workers {
-				mo := map[string]ce.Marshaler{}
+				ws := newC17Worker()
 				for j, op := range c.Workers[w] {
 					ctx.Label("op:" + op.Kind)
 					alone := &c17Env{cfg: cfg, isess: iterator.NewSession(nil, cfg), bsess: builder.NewSession(nil, cfg), vals: env.vals, docs: env.docs}
-					want := c17Run(alone, c, op, mo)
+					want := c17Run(alone, c, op, ws)
 					got := results[w][j]
 					if !c17Same(got, want) {
 						return fmt.Errorf("goroutine %d, operation %d (%s on item %d): concurrently error=%q doc=%s; alone error=%q doc=%s",
